@@ -124,7 +124,7 @@ CORE = {
     },
     "C20": {
         "race": True,
-        "checked": ["ucs", "hasuc", "out", "ret", "panic", "dupout", "late"],
+        "checked": ["ucs", "hasuc", "out", "ret", "panic", "dupout", "late", "ucsnap"],
         "assumptions": [
             "sequential histories through SpineCore; all interleavings of two (thorough: three) concurrent read-modify-write cycles on different entities are forced through the gate between copy and store (CheckThenAct)",
             "2 entities x 2 actors x 2 names x 2 versions x availability x 2 scenario lists",
@@ -159,7 +159,8 @@ CORE = {
         "quick": {
             "mc": [{"acts": DISC + ["sub", "unsub", "entrem", "setdata", "listsubs"], "maxlen": 6},
                    {"acts": ["sub", "unsub", "listsubs", "disconnect"], "rich": ["sub", "unsub"], "maxlen": 3, "prefix": "PrefixP1P2"}],
-            "gen": [{"acts": ["sub", "unsub", "listsubs", "disconnect", "entrem", "setdata"], "maxlen": 2, "prefix": "PrefixP1P2"},
+            "gen": [{"acts": ["connect", "presub", "discover", "disconnect", "entrem"], "maxlen": 5, "view": None, "peers": ["p1"]},
+                    {"acts": ["sub", "unsub", "listsubs", "disconnect", "entrem", "setdata"], "maxlen": 2, "prefix": "PrefixP1P2"},
                     {"acts": ["sub", "unsub"], "rich": ["sub"], "maxlen": 2, "prefix": "PrefixP1"},
                     {"acts": ["sub", "unsub"], "rich": ["unsub"], "maxlen": 2, "prefix": "PrefixP1"},
                     {"acts": ["sub", "unsub", "listsubs"], "tiny": ["sub", "unsub"], "maxlen": 4, "prefix": "PrefixP1", "view": None},
@@ -195,7 +196,8 @@ CORE = {
         ],
         "quick": {
             "mc": [{"acts": DISC + ["sub", "bind", "lsub", "lbind", "entrem", "entadd", "setdata"], "maxlen": 7}],
-            "gen": [{"acts": ["sub", "bind", "lsub", "lbind", "disconnect", "entrem", "setdata", "write", "listsubs", "listbinds"], "maxlen": 3, "prefix": "PrefixP1P2"},
+            "gen": [{"acts": ["connect", "presub", "discover", "disconnect", "entrem", "setdata"], "maxlen": 5, "view": None, "peers": ["p1"]},
+                    {"acts": ["sub", "bind", "lsub", "lbind", "disconnect", "entrem", "setdata", "write", "listsubs", "listbinds"], "maxlen": 3, "prefix": "PrefixP1P2"},
                     {"acts": DISC + ["sub", "bind", "lsub", "entrem", "entadd"], "rich": ["disconnect", "entrem", "entadd"], "maxlen": 4, "prefix": "PrefixP1"},
                     {"acts": ["sub", "bind", "disconnect", "entrem"], "maxlen": 3, "prefix": "PrefixP1P2", "ghost": 2},
                     # nested entity [1,1] announced and removed below [1] with registry entries in place
@@ -217,7 +219,7 @@ CORE = {
     },
     "C03": {
         "pair_probes": "bind,unbind,entrem,disconnect",     # a registry operation parked mid-way, another peer's operation meanwhile: serial outcome
-        "checked": ["data", "out", "ev", "ret", "panic", "dupout", "dupev", "late"],
+        "checked": ["data", "out", "ev", "ret", "panic", "dupout", "dupev", "late", "announce"],
         "assumptions": [
             "the writer is an announced feature of a connected peer or an unannounced address of a connected peer (then the write is dropped)",
             "writes are full writes of a one-item list whose item is changeable (write shapes and write protection belong to C04)",
